@@ -164,6 +164,7 @@ def command_case(draw, tier='quick'):
         'bystanders': draw(st.booleans()),
         'old_test': draw(st.sampled_from([False, False, True])),
         'args': draw(st.lists(st.sampled_from(CMD_ARGS), max_size=2)),
+        'neighbour': draw(st.integers(0, 5)) == 0,
     }
 
 
@@ -348,6 +349,16 @@ class Workdir(object):
 
     def generate(self):
         c = self.case
+        if c.get('neighbour'):
+            # another test, generated earlier in the same directory, whose
+            # name extends this one's (test_xy.py beside test_x.py)
+            subprocess.run([sys.executable, '-m', 'tdda.constraints.console',
+                            'gentest', 'echo neighbour', 'test_xy.py', '.',
+                            '-n', '1'],
+                           cwd=self.w, env=self.subenv(),
+                           stdout=subprocess.PIPE, stderr=subprocess.PIPE,
+                           text=True, encoding='utf-8', errors='replace',
+                           timeout=300)
         argv = [sys.executable, '-m', 'tdda.constraints.console', 'gentest',
                 self.command(), self.script_arg()] + self.ref_args()
         argv += ['-n', str(c['n'])]
